@@ -210,6 +210,31 @@ def edit_session(job):
                             fail("quickfix", f"{title}: range start {st} after end {en}", {"start": s, "end": e, "title": title, "edit": ed})
                         n += 1
                         seen.add("quickfix")
+        # every quick fix of the document: ranges must be well formed, and applying them all must give what
+        # `garden check --fix` gives
+        rid += 1
+        r = c.request(rid, "textDocument/codeAction", {"textDocument": {"uri": uri}, "range": {"start": {"line": 0, "character": 0}, "end": to_lsp(text, len(text.encode()))},
+                                                       "context": {"diagnostics": []}}, timeout=10)
+        qf = []
+        for a in ((r or {}).get("result") or []):
+            if a.get("kind") == "quickfix":
+                for ed in a.get("edit", {}).get("changes", {}).get(uri, []):
+                    st, en = ed["range"]["start"], ed["range"]["end"]
+                    if (st["line"], st["character"]) > (en["line"], en["character"]):
+                        fail("quickfix", f"{a.get('title')}: range start {st} after end {en}", {"title": a.get("title"), "edit": ed})
+                    else:
+                        qf.append(ed)
+                    n += 1
+                    seen.add("quickfix")
+        if qf and name.startswith("lint-bait"):
+            # overlapping fixes are applied one per round by check --fix; compare only when they are disjoint
+            try:
+                got = lsp_client.apply_edits(text, qf)
+                rc, out, err = garden(["check", "--fix", "--stdout", path], timeout=20)
+                if out.strip() and out != text and got != out:      # (check --fix leaves a text with parse errors alone)
+                    fail("quickfix", f"applying the server's quick fixes gives {got[-80:]!r}, `check --fix` gives {out[-80:]!r}", {"edits": qf, "cli": out})
+            except ValueError:
+                pass
         if not c.alive():
             fail("server", "the language server died during the session", {})
     except ValueError as ex:
@@ -264,6 +289,7 @@ def run(tier, seed):
             continue
         texts.append((name, s))
         texts.append((name + "+wide", widen(rnd, s, r["tokens"])))
+    texts += [(f"lint-bait-{i}", s) for i, s in enumerate(c23.LINT_BAIT)]      # quick fixes over several lines
     toks = batch("frontend", [{"id": i, "src": s, "tokens": True, "check": False, "format": False} for i, (_, s) in enumerate(texts)], timeout_per=2.0)
     jobs = [(name, s, r.get("tokens") or [], seed * 1000 + i, 3 if tier == "quick" else 8) for i, ((name, s), r) in enumerate(zip(texts, toks))]
     results = pmap(edit_session, jobs, workers=8)
